@@ -177,7 +177,12 @@ func (dr *DatabaseRecovery) shouldRetry(err error) bool {
 
 // calculateDelay calculates the delay for exponential backoff
 func (dr *DatabaseRecovery) calculateDelay(attempt int) time.Duration {
-	delay := float64(dr.retryConfig.BaseDelay) * math.Pow(dr.retryConfig.BackoffFactor, float64(attempt-1))
+	// A factor below one (or NaN) would make the waits shrink, alternate in sign or go negative; back off by at least 1x.
+	factor := dr.retryConfig.BackoffFactor
+	if !(factor >= 1) {
+		factor = 1
+	}
+	delay := float64(dr.retryConfig.BaseDelay) * math.Pow(factor, float64(attempt-1))
 
 	if delay > float64(dr.retryConfig.MaxDelay) {
 		delay = float64(dr.retryConfig.MaxDelay)
